@@ -61,7 +61,10 @@ def ptry(sdir, name, props, tier="quick"):
         return
     res = {}
     try:
-        sh(f"rsync -a --exclude .git --exclude work --exclude replays --exclude seeded /verif/ {base}/verif/")
+        src = os.environ.get("VERIF_SRC", "/verif")      # another revision of /verif (a git worktree), for "what did the older checks see"
+        sh(f"rsync -a --exclude .git --exclude work --exclude replays --exclude seeded {src}/ {base}/verif/")
+        if src != "/verif":
+            sh(f"mkdir -p {base}/verif/harness/target && rsync -a /verif/harness/target/ {base}/verif/harness/target/; cp /verif/harness/Cargo.lock {base}/verif/harness/")
         sh(f"sed -i 's#path = \"/repo\"#path = \"{base}/repo\"#' {base}/verif/harness/Cargo.toml")
         for p in props:
             rc, o = sh(f"./check {p} --tier {tier} 2>&1 | tail -8", cwd=f"{base}/verif")
